@@ -294,6 +294,11 @@ class Gen:
         keys = rng.sample(KEYS, nkeys)
         mas = self.map_anchors()          # only anchors defined before this map starts can be merged anywhere in it
         es = [[k, self.value(depth)] for k in keys]
+        # a name re-defined inside these entries no longer means the snapshot's target at every position of the map
+        redefined = set()
+        for _, v in es:
+            redefined |= names_in(v) | ({v["a"]} if v.get("a") else set())
+        mas = [(n, t) for n, t in mas if n not in redefined]
         if mas and (force_merge or rng.random() < 0.6):
             r = rng.random()
             if r < 0.5:
@@ -477,7 +482,24 @@ def replay_known(chk):
         chk.known_finding("explicit-before-merge", ".n.x reads 1 on all three routes")
 
 
+def stream_path(e):
+    e = e.replace("explode(.) | ", "")
+    if e in (".", "explode(.)"):
+        return ()
+    return tuple(x for x in e.strip(".").split(".") if x)
+
+
 def replay(rp):
+    if rp.get("kind") == "stream":
+        e = rp["expr"]
+        r = multi([(rp["yaml"], [e])])[0][0]
+        k, v = obs(r)
+        p = stream_path(e)
+        want = [want_of(t, p)[1] for t in rp["truths"]]
+        try:
+            return k == "ok" and [json.loads(x) for x in v.split("\n")] == want
+        except Exception:
+            return False
     if rp.get("kind") != "doc":
         return False
     # the document is rebuilt from its YAML text only for the implementation; ground truth travels with the replay
@@ -572,6 +594,59 @@ def run(chk):
             c2.append(("(%s, %s)" % (cd, coq_path(p)), as_bytes(obs(rs[2 * i + 1])), (text, p)))
         c3.append((cd, as_bytes(obs(rs[-1])), (text, ())))
 
+    # ---------------- multi-document streams: every document re-uses the same anchor names ----------------
+    # (the anchor table - yaml.v3 and yq's anchorMap - is tested here, not modelled: oracle only)
+    streams = []
+    for i in range(1500 if thorough else 120):
+        k = rng.choice([2, 2, 3])
+        ds = []
+        for _ in range(k):
+            g = Gen(rng, False, rng.random() < 0.5)
+            d = g.document()
+            try:
+                ds.append((d, resolve(d)))
+            except Malformed:
+                pass
+        if len(ds) >= 2:
+            streams.append(ds)
+    sm1 = mp([["d", mp([["x", sc(1)]], "d")], ["r", mp([["<<", None], ["w", sc("one", "s")], ["u", None]])]])
+    sm1["es"][1][1]["es"][0][1] = al("d", sm1["es"][0][1]); sm1["es"][1][1]["es"][2][1] = al("s", sm1["es"][1][1]["es"][1][1])
+    sm2 = mp([["d", mp([["x", sc(10)]], "d")], ["r", mp([["<<", None], ["w", sc("two", "s")], ["u", None]])]])
+    sm2["es"][1][1]["es"][0][1] = al("d", sm2["es"][0][1]); sm2["es"][1][1]["es"][2][1] = al("s", sm2["es"][1][1]["es"][1][1])
+    streams.insert(0, [(sm1, resolve(sm1)), (sm2, resolve(sm2))])
+    SEXPRS = [".", "explode(.)", ".t0", ".t1", "explode(.) | .t1", ".r", ".r.u"]
+
+    stexts = ["\n---\n".join(yaml_of(d) for d, _ in ds) + "\n" for ds in streams]
+    sres = multi([(t, SEXPRS) for t in stexts])
+    stats["streams"] = len(streams)
+    for ds, text, rs in zip(streams, stexts, sres):
+        classes = set()
+        for d, _ in ds:
+            classes |= doc_classes(d)
+        chk.count(("stream", text), nontrivial=True)
+        for e, r in zip(SEXPRS, rs):
+            k, v = obs(r)
+            lines = v.split("\n") if k == "ok" else None
+            p = stream_path(e)
+            want = [want_of(t, p)[1] for _, t in ds]
+            got = None
+            if lines is not None and len(lines) == len(ds):
+                try:
+                    got = [json.loads(x) for x in lines]
+                except Exception:
+                    got = None
+            if got != want:
+                detail = "stream: %s gives %r, the resolved documents have %r" % (e, v if got is None else got, want)
+                rp = {"kind": "stream", "yaml": text, "truths": [t for _, t in ds], "expr": e, "detail": detail}
+                unknown = [c for c in classes if not chk.is_known(c)]
+                if classes and not unknown:
+                    for c in classes:
+                        stats["known_class_hits"][c] = stats["known_class_hits"].get(c, 0) + 1
+                else:
+                    nviol += 1
+                    if nviol <= 6:
+                        chk.violation(rp, True, detail + "  [" + text[:200].replace("\n", " / ") + "]")
+
     disagreements = []
     for name, fn, cs in (("route1 (PATH)", "(fun c => show_res (route1 %d (fst c) (snd c)))" % FUEL, c1),
                          ("route2 (explode(.) | PATH)", "(fun c => show_res (route2 %d (fst c) (snd c)))" % FUEL, c2),
@@ -603,6 +678,8 @@ def run(chk):
              "(`<<` first, disjoint list sources) and an adversarial one (`<<` anywhere, overlapping sources, scalar values spelled like key names); "
              "for each document up to 14 read paths drawn from the independently resolved ground truth (leaves and containers) plus missing keys, "
              "each read by PATH, by explode(.) | PATH and from -o=json . ; explode(.) is also printed as YAML and scanned for & * <<. "
+             "About a third of the documents define an anchor name more than once (aliases and merges after each definition), and streams of 2-3 "
+             "documents re-use the same anchor names in every document (oracle only: the anchor table of yaml.v3 / yq's anchorMap is tested, not modelled). "
              "A case is one (document, path); non-trivial when the document contains an alias; distinct by text.",
         trusted=vlib.COMMON_TRUSTED + [
             "Spec/YamlMergeSpec.v (hand-written YAML 1.1 merge-key resolution) and the independent python resolution used by the oracle",
